@@ -12,6 +12,8 @@ import (
 	"net/netip"
 	"os"
 	"path/filepath"
+	"strings"
+	"sync"
 	"testing"
 
 	"github.com/AdguardTeam/AdGuardHome/internal/vfkit"
@@ -99,6 +101,134 @@ func TestVFC14LeaseDB(t *testing.T) {
 				t.Fatalf("a concurrent reader saw %s (%d times), which is none of the saved versions", k, c)
 			}
 			vfC14.ClassN("reader_observations", c)
+		}
+	})
+}
+
+// TestVFC14LeaseDBConcurrent: overlapping stores of the lease database (the
+// static-lease API, DHCP messages and a lease reset all store after releasing
+// the lease lock, so stores do overlap in production).  Whatever the
+// interleaving, the name must only ever be replaced by renames, readers must
+// only see versions some store wrote, the end state must be one of them, and
+// no temporary file may survive.
+func TestVFC14LeaseDBConcurrent(t *testing.T) {
+	vfkit.Begin(t)
+	rapid.Check(t, func(t *rapid.T) {
+		dir, err := os.MkdirTemp("", "vfc14dbc")
+		if err != nil {
+			t.Fatalf("VERIF-INCONCLUSIVE mkdir: %v", err)
+		}
+		defer os.RemoveAll(dir)
+		ref, err := os.MkdirTemp("", "vfc14dbref")
+		if err != nil {
+			t.Fatalf("VERIF-INCONCLUSIVE mkdir: %v", err)
+		}
+		defer os.RemoveAll(ref)
+
+		nWriters := rapid.IntRange(2, 4).Draw(t, "n_writers")
+		nSaves := rapid.IntRange(2, 6).Draw(t, "saves_per_writer")
+		sizes := []int{0, 1, 40, 300, 2500}
+		type version struct {
+			leases []*dbLease
+		}
+		plan := make([][]version, nWriters)
+		versions := map[string]bool{"ENOENT": true}
+		for wi := range plan {
+			for j := 0; j < nSaves; j++ {
+				n := rapid.SampledFrom(sizes).Draw(t, fmt.Sprintf("w%d_s%d_n", wi, j))
+				ls := vfC14Leases(n, wi*16+j)
+				plan[wi] = append(plan[wi], version{leases: ls})
+				// the bytes of this version, from an undisturbed store
+				rp := filepath.Join(ref, dataFilename)
+				if werr := writeDB(rp, ls); werr != nil {
+					t.Fatalf("VERIF-INCONCLUSIVE reference store: %v", werr)
+				}
+				b, rerr := os.ReadFile(rp)
+				if rerr != nil {
+					t.Fatalf("VERIF-INCONCLUSIVE reference read: %v", rerr)
+				}
+				versions[vfkit.Sum(b)] = true
+			}
+		}
+
+		w, err := vfkit.NewWatcher(dir, os.TempDir())
+		if err != nil {
+			t.Fatalf("VERIF-INCONCLUSIVE watcher: %v", err)
+		}
+		defer w.Close()
+		tmpBefore := vfkit.DirListing(os.TempDir())
+		path := filepath.Join(dir, dataFilename)
+		rd := vfkit.StartReader(path, 2)
+
+		var wg sync.WaitGroup
+		var errMu sync.Mutex
+		var saveErrs []string
+		start := make(chan struct{})
+		for wi := range plan {
+			wg.Add(1)
+			go func(vs []version) {
+				defer wg.Done()
+				<-start
+				for _, v := range vs {
+					if werr := writeDB(path, v.leases); werr != nil {
+						errMu.Lock()
+						saveErrs = append(saveErrs, werr.Error())
+						errMu.Unlock()
+					}
+				}
+			}(plan[wi])
+		}
+		close(start)
+		wg.Wait()
+		seen := rd.Stop()
+
+		evs, derr := w.Drain()
+		if derr != nil {
+			t.Fatalf("VERIF-INCONCLUSIVE inotify: %v", derr)
+		}
+		_, cp, aerr := vfkit.CheckAtomicHistory(evs, dir, dataFilename)
+		if aerr != nil {
+			t.Fatalf("overlapping stores (%d writers x %d): %v", nWriters, nSaves, aerr)
+		}
+		for k, c := range seen {
+			if !versions[k] {
+				t.Fatalf("overlapping stores (%d writers x %d): a concurrent reader saw %s (%d times), which is none of the stored versions; store errors: %v",
+					nWriters, nSaves, k, c, saveErrs)
+			}
+		}
+		b, rerr := os.ReadFile(path)
+		if rerr != nil || !versions[vfkit.Sum(b)] {
+			t.Fatalf("overlapping stores (%d writers x %d): the file ends as %s (err %v), which is none of the stored versions; store errors: %v",
+				nWriters, nSaves, vfkit.Sum(b), rerr, saveErrs)
+		}
+		var dl dataLeases
+		if jerr := json.Unmarshal(b, &dl); jerr != nil {
+			t.Fatalf("overlapping stores: the file does not decode: %v", jerr)
+		}
+		for _, n := range vfkit.DirListing(dir) {
+			if n != dataFilename {
+				t.Fatalf("overlapping stores: leftover file %q next to the database; store errors: %v", n, saveErrs)
+			}
+		}
+		tb := map[string]bool{}
+		for _, n := range tmpBefore {
+			tb[n] = true
+		}
+		for _, n := range vfkit.DirListing(os.TempDir()) {
+			if !tb[n] && !strings.HasPrefix(n, "vfc14") {
+				t.Fatalf("overlapping stores: leftover file %q in the staging directory", n)
+			}
+		}
+
+		vfC14.Eval()
+		vfC14.ClassN("crash_points", cp)
+		vfC14.Class("leasedb:overlapping_stores")
+		vfC14.Nontrivial(fmt.Sprintf("leasedb_concurrent|%d|%d|%d", nWriters, nSaves, len(evs)))
+		if len(saveErrs) > 0 {
+			vfC14.Class("leasedb:store_error_under_overlap")
+		}
+		if vfC14.WantSample("leasedb_concurrent") {
+			vfC14.Sample("leasedb_concurrent", map[string]any{"writers": nWriters, "saves_each": nSaves, "events": len(evs), "crash_points": cp})
 		}
 	})
 }
